@@ -242,7 +242,7 @@ CRASH_RULES = {
     "C03": CRASH_RULE_COMMON.replace("images per crash point: minimal, maximal, directory-ahead, data-ahead, torn last write, sampled; ", "only the byte-exact maximal (process-kill) image per kill point; ")
            + "non-trivial = kill point strictly inside a multi-system-call operation (write, flush, compaction, log switch, MANIFEST/CURRENT switch, recovery); distinct by (case, kill point)",
     "C04": CRASH_RULE_COMMON + "generator weighted to multi-update batches (2..400 updates, payloads spanning 32 KiB log blocks); non-trivial = image with a torn log tail taken while a multi-update or multi-fragment batch was in flight",
-    "C05": CRASH_RULE_COMMON + "each image is recovered, read back, written to, closed and opened again; non-trivial = image with a torn log tail, a half-written MANIFEST, a CURRENT switch in progress, or an orphan table",
+    "C05": CRASH_RULE_COMMON + "each image is recovered, read back, written to, closed and opened again; every 25th (thorough: 6th) image additionally has second-level crash points enumerated inside its recovery (up to 12 / 60 boundaries x 4 canonical images, counted as evaluations too); non-trivial = image with a torn log tail, a half-written MANIFEST, a CURRENT switch in progress, or an orphan table",
     "C17": CRASH_RULE_COMMON + "generator weighted to reopen (MANIFEST roll-over); non-trivial = image taken between creating the new MANIFEST and removing the old one (two MANIFESTs, a .dbtmp, or no CURRENT yet)",
 }
 
@@ -250,9 +250,9 @@ for _p in ("C02", "C03", "C05"):
     SPECS[_p] = {
         "level": "fault_enumeration", "quick_budget": 55, "thorough_budget": 900, "assumptions": CRASH_ASSUME, "run": generic_run,
         "parts": [
-            {"name": "asan", "engine": "crash", "flavour": "asan", "kind": _p, "nt": _p + ".nt", "eval_counter": "images", "rule": CRASH_RULES[_p],
+            {"name": "asan", "engine": "crash", "flavour": "asan", "kind": _p, "nt": _p + ".nt", "eval_counter": ["images", "nested_images"], "rule": CRASH_RULES[_p],
              "quick_count": 100000, "thorough_count": 10000000, "budget_share": 0.4},
-            {"name": "plain", "engine": "crash", "flavour": "plain", "kind": _p, "nt": _p + ".nt", "eval_counter": "images",
+            {"name": "plain", "engine": "crash", "flavour": "plain", "kind": _p, "nt": _p + ".nt", "eval_counter": ["images", "nested_images"],
              "rule": "same generator, images and oracles with lcdb built without sanitizers (more images per second); seeds differ from the asan part",
              "quick_count": 100000, "thorough_count": 10000000, "budget_share": 0.6, "seed_offset": 7777},
         ],
